@@ -272,12 +272,40 @@ def debug_logging():
         logging.disable(prev)
 
 
+CASE_TIMEOUT_S = int(os.environ.get("VERIF_CASE_TIMEOUT", "240"))
+_case_timeouts = [0]
+
+
+@contextlib.contextmanager
+def case_watchdog():
+    """A case that does not finish (a change that makes the implementation spin or dead-lock under the harness) must
+    not hang the check: SIGALRM raises TimeoutError inside whatever is running; the driver reports it as a `crash`
+    with the case as replay.  After the first time-out the limit drops, so that shrinking stays bounded."""
+    import signal
+    if not hasattr(signal, "SIGALRM"):
+        yield
+        return
+    limit = CASE_TIMEOUT_S if _case_timeouts[0] == 0 else max(10, CASE_TIMEOUT_S // 12)
+
+    def on_alarm(signum, frame):
+        _case_timeouts[0] += 1
+        raise TimeoutError(f"the case did not finish within {limit} s")
+    old = signal.signal(signal.SIGALRM, on_alarm)
+    signal.alarm(limit)
+    try:
+        yield
+    finally:
+        signal.alarm(0)
+        signal.signal(signal.SIGALRM, old)
+
+
 def run_case(st, case):
     """Run one case on the implementation; cases flagged `debug_log` run with debug logging enabled."""
-    if isinstance(case, dict) and case.get("debug_log"):
-        with debug_logging():
-            return st.run_impl(case)
-    return st.run_impl(case)
+    with case_watchdog():
+        if isinstance(case, dict) and case.get("debug_log"):
+            with debug_logging():
+                return st.run_impl(case)
+        return st.run_impl(case)
 
 
 def eval_show(tag: str, header: str, term: str) -> str:
